@@ -21,6 +21,7 @@ versions / 8 masks (payload-independent stages) and symbolically where payload-d
                            writer. `C10_total_auto`: in automatic mode no alphabet hypothesis is needed.
 Not modelled: stack/heap exhaustion, allocator aborts; termination is structural in the model.
 -/
+import FastQr.Props.C05Tables
 import FastQr.Proofs.TemplateSound
 import FastQr.Proofs.MaskSound
 import FastQr.Props.C02
